@@ -4,6 +4,7 @@ import KsVerif.Base.Cost
 import KsVerif.Sched.Driver
 import KsVerif.Redis.Driver
 import KsVerif.Amqp.Driver
+import KsVerif.Http.Driver
 import KsVerif.Kfl.MacroDriver
 import KsVerif.Kfl.Driver
 import KsVerif.Stages.Driver
@@ -13,6 +14,7 @@ open KsVerif
 def judge (fam payload impl : String) : Verdict :=
   match fam with
   | "progress" => Progress.judge payload impl
+  | "http.conv" => Http.Driver.judgeConv payload impl
   | "amqp.conv" => Amqp.Driver.judgeConv payload impl
   | "amqp.raw" => Amqp.Driver.judgeRaw payload impl
   | "amqp.split" => Amqp.Driver.judgeRaw payload impl (splitMode := true)
